@@ -3,7 +3,7 @@
    and the assembly facts below are proved; rendering is plotly's / matplotlib's runtime. *)
 From Coq Require Import List Arith ZArith QArith Qcanon.
 Import ListNotations.
-From Flodym Require Import Base.ND Base.Env Np.Einsum Model.Dims Model.Array Model.SubArray Model.Instances Model.Export Proofs.ExportProofs.
+From Flodym Require Import Base.ND Base.Env Np.Einsum Model.Dims Model.Array Model.SubArray Model.Instances Model.Export Proofs.ExportProofs Proofs.SankeyCount.
 
 Theorem C20_links_run_between_the_right_nodes_with_the_sliced_total :
   forall procs ep slice items_of f ls, links_of procs ep slice items_of f = Ok ls ->
@@ -32,3 +32,12 @@ Theorem C20_hidden_flows_have_no_link :
   ~ In f (filter (flow_is_shown procs ep ef) flows).
 Proof. exact hidden_flow_has_no_link. Qed.
 Print Assumptions C20_hidden_flows_have_no_link.
+
+(* one link per shown flow, in the flows' order, labelled by the flow — and none for hidden flows (flows not split by a dimension) *)
+Theorem C20_one_link_per_shown_flow :
+  forall procs ep ef slice items_of flows ls,
+  (forall f, In f flows -> sf_split f = None) ->
+  sankey_links procs ep ef slice items_of flows = Ok ls ->
+  map sl_label ls = map sf_name (filter (flow_is_shown procs ep ef) flows).
+Proof. exact sankey_one_link_per_shown_flow. Qed.
+Print Assumptions C20_one_link_per_shown_flow.
